@@ -2,8 +2,8 @@
  * under ASan, hex in / hex out.
  *
  *   setkey <alg> <op> <mode> <bits> <keyhex|-> [nulls]     -> setkey <ERR> [ks=<hex>]
- *        (DES / 3DES, on success: the key schedule the call left in the public context
- *         structure, ctx->sk resp. ctx1, ctx2, ctx3 - compared with the implementation-layer model)
+ *        (on success: the key schedule the call left in the public context
+ *         structure - AES rd_key, DES sk, 3DES ctx1..3 - compared with the implementation-layer model)
  *        alg aes|des|tdes; op enc|dec|<int>; mode ecb|cbc|cfb|ofb|ctr|<int>;
  *        nulls: letters k (key / key1) 2 (key2) 3 (key3) c (ctx) or '-'.
  *        Starts a new phase: the outputs accumulated so far become "the previous phase".
@@ -154,6 +154,7 @@ static void do_setkey(char *line)
 	}
 	have_ctx = (rc == 0);
 	printf("setkey %s", errname(rc));
+	if (rc == 0 && alg == ALG_AES) { printf(" ks="); puthex((const unsigned char *)actx->sk.rd_key, (size_t)(actx->sk.rounds + 1) * 16); }
 	if (rc == 0 && alg == ALG_DES) { printf(" ks="); puthex((const unsigned char *)&dctx->sk, sizeof(dctx->sk)); }
 	if (rc == 0 && alg == ALG_TDES) {
 		printf(" ks="); puthex((const unsigned char *)&tctx->ctx1.sk, sizeof(tctx->ctx1.sk));
